@@ -29,6 +29,18 @@ Definition ex_w_late : list ex_act :=
   [ExASend 3; ExADelS 0; ExADropC 0; ExATimer; ExATimer; ExATimer; ExATimer; ExATimer;
    ExAFire 0; ExADelC 0 true].
 
+(* F3 with loss only and an immediate server: four copies of the request, the empty ACK and the
+   first copy of the separate response are lost, the client gives up, the server's
+   retransmission of the response arrives *)
+Definition ex_w_late_loss : list ex_act :=
+  [ExASend 1; ExATimer; ExATimer; ExATimer; ExATimer;
+   ExADropS 0; ExADropS 0; ExADropS 0; ExADropS 0; ExADelS 0; ExADropC 0; ExADropC 0;
+   ExATimer; ExASrvTimer 0; ExADelC 0 true].
+
+Lemma ex_once_refuted_patient_loss :
+  exists acts k, ex_concl_count k (ex_sys_trace (Build_ex_cfg 4 true true false) ex_y0 acts) = 2%nat.
+Proof. exists ex_w_late_loss, 1. vm_compute. reflexivity. Qed.
+
 Lemma ex_once_refuted_quiet :
   exists acts k, ex_concl_count k (ex_sys_trace (Build_ex_cfg 4 true false true) ex_y0 acts) = 2%nat.
 Proof. exists ex_w_slot_ack, 1. vm_compute. reflexivity. Qed.
